@@ -99,6 +99,17 @@ func init() {
 		cell := e.newCell(st, Val{K: kTerm, Typ: mathIntType(), Sort: sInt, T: it})
 		return one(st, Val{K: kPtr, Typ: types.NewPointer(lookupNamed(e, "math/big", "Int")), Ptr: &Pointer{Cell: cell}})
 	}
+	intrinsicsByName[bi+"SetBytes"] = func(e *Env, st *State, args []Val, rt types.Type, c *ssa.CallCommon) []Out {
+		// big-endian unsigned: an uninterpreted non-negative function of the bytes
+		b := e.term(st, args[1])
+		t := e.D.uf("bytes2nat", []string{sStr}, sInt, b)
+		st.define(tApp("<=", "0", t))
+		return one(st, e.bigSet(st, args[0], t, pos(c)))
+	}
+	intrinsicsByName[bi+"Bytes"] = func(e *Env, st *State, args []Val, rt types.Type, c *ssa.CallCommon) []Out {
+		x := e.bigVal(st, args[0], pos(c))
+		return one(st, e.wrapTerm(bytesType, e.D.uf("nat2bytes", []string{sInt}, sStr, x)))
+	}
 	intrinsicsByName[bi+"Cmp"] = func(e *Env, st *State, args []Val, rt types.Type, c *ssa.CallCommon) []Out {
 		x, y := e.bigVal(st, args[0], pos(c)), e.bigVal(st, args[1], pos(c))
 		w := 64
